@@ -749,6 +749,12 @@ class C16(CaseSpec):
                                      "rustc": err, "oracle": "the type cannot be sent to / shared with another thread although its payload types are Send + Sync",
                                      "program": "fn f<K: Clone + Hash + Display + Eq + Send + Sync, N: Clone + Send + Sync, E: Clone + Send + Sync>() { fn ok<T: Send + Sync>() {} ok::<gdsl::%s::%s<K, N, E>>(); }" % (fl, t)})
             violations.append((rp, ""))
+        vbad = tc.value_row_failures()
+        for (k, got, want) in vbad[:3]:
+            rp = write_replay(prop, {"kind": "failing-input", "object": "%s handed out by gdsl::%s with node values of marker type %s" % (k[1], k[0], k[2]),
+                                     "rustc": list(got), "required": list(want),
+                                     "oracle": "an object that holds node handles is Send / Sync although the payload is not both (or is not although it is): (Send, Sync) = %s, required %s" % (got, want)})
+            violations.append((rp, ""))
         mrows, mout = tc.model_table()
         dis = []
         if mrows is None:
@@ -766,7 +772,7 @@ class C16(CaseSpec):
                    samples=[dict(row=list(k), rustc=list(rows[k]), model=list(mrows[k]) if mrows else None) for k in sorted(rows)[200:203]],
                    traces_validated_against_impl=len(rows) - len(dis), disagreements=len(dis), exhaustive=True,
                    exhaustive_space="all 768 rows; the theorems quantify over all 64 (Send,Sync)-classes of (K,N,E) per flavour",
-                   translated_declarations=self.summary)
+                   translated_declarations=self.summary, value_level_rows=len(tc.VALUE_ROWS), value_level_failures=len(vbad))
         shown = 0
         for k, msg in bad:
             if shown >= 3:
@@ -1151,6 +1157,24 @@ fn main() {
     h.insert(Node::new(7, ()));
     println!("unitdot {}", h.to_dot().split_whitespace().collect::<Vec<_>>().join(" "));
     println!("unitlen {} {}", h.len(), h.contains(&7));
+    // payload types with the minimal bounds only (Clone; a borrowed key): neither twin may ask for more than the other
+    #[derive(Clone)]
+    struct W(u8);
+    let mut m: Graph<&'static str, W, W> = Graph::default();
+    let x = Node::new("x", W(1));
+    let y = Node::new("y", W(2));
+    x.connect(&y, W(3));
+    let refused = x.try_connect(&y, W(4)).is_err();
+    m.insert(x.clone());
+    m.insert(y.clone());
+    let n = x.ITER.count();
+    let found = x.bfs().target(&"y").search().map(|n| n.value().0).unwrap_or(0);
+    let path = x.dfs().target(&"y").search_path().map(|p| p.len()).unwrap_or(0);
+    let d = x.disconnect(&"y").map(|w| w.0).unwrap_or(0);
+    y.isolate();
+    let got = m.get(&"x").map(|n| n.value().0).unwrap_or(0);
+    let removed = m.remove(&"y").is_some();
+    println!("minimal {} {} {} {} {} {} {} {} {}", m.len(), n, refused, found, path, d, got, removed, m.to_vec().len());
 }
 """
 
@@ -1178,7 +1202,7 @@ class C15(CaseSpec):
             if rc != 0:
                 outs[fl] = ("compile-error", [l for l in out.splitlines() if l.startswith("error")][:4])
             else:
-                outs[fl] = ("ok", [l for l in out.splitlines() if l.split(" ")[0] in ("parallel", "same-value-other-endpoints", "reverse", "index", "default", "unitdot", "unitlen")])
+                outs[fl] = ("ok", [l for l in out.splitlines() if l.split(" ")[0] in ("parallel", "same-value-other-endpoints", "reverse", "index", "default", "unitdot", "unitlen", "minimal")])
         for a, b in (("digraph", "sync_digraph"), ("ungraph", "sync_ungraph")):
             if outs[a] != outs[b]:
                 rp = write_replay(prop, {"kind": "failing-input", "oracle": "the same program behaves differently on %s and %s: %s vs %s" % (a, b, outs[a], outs[b]),
